@@ -214,6 +214,9 @@ func parseX86_64(p *parser, line, caller string, instructions []string) (*Syscal
 		if inst := lastInstruction(instructions); inst != "" {
 			if strings.Contains(inst, "XORL AX, AX") {
 				fields := strings.Fields(line)
+				if len(fields) < 3 {
+					return nil, fmt.Errorf("unexpected format of '%v'", strings.TrimSpace(line))
+				}
 				return &Syscall{
 					Location: fields[0],
 					Function: strings.Join(fields[3:], " "),
@@ -231,6 +234,9 @@ func parseX86_64(p *parser, line, caller string, instructions []string) (*Syscal
 	}
 
 	fields := strings.Fields(line)
+	if len(fields) < 3 {
+		return nil, fmt.Errorf("unexpected format of '%v'", strings.TrimSpace(line))
+	}
 	s := &Syscall{
 		Location: fields[0],
 		Function: strings.Join(fields[3:], " "),
